@@ -312,7 +312,9 @@ def unit_pairs(part, sp, i):
         if not ok:
             bad = run_pair(a, b, A, B, c, comp, why)
             if not bad:
-                raise AssertionError("C03: fast path and run_pair disagree on (%r, %r)" % (a, b))
+                # the same objects answer differently when asked again: the comparison keeps state across calls
+                bad = [("order/history-dependent", "stable answers for (%r, %r)" % (a, b),
+                        "the batched comparison disagreed with the model, the repeated one did not")]
             for sig, exp, obs in bad:
                 part.violation(sig, {"k": "pair", "a": a, "b": b}, exp, obs)
         n_ordered += 1 if j == i else 2
